@@ -96,7 +96,33 @@ func genC02(r *kit.RNG) *C01Scenario {
 		}
 		sc.Ops = append(sc.Ops, op)
 	}
-	if r.Chance(0.8) {
+	if r.Chance(0.2) {
+		// wildcard-replay template: the focus zone has an apex wildcard of type A and
+		// existing names are asked while their answers are replaced by the replayed wildcard
+		for i := range sc.World.Zones {
+			z := &sc.World.Zones[i]
+			if dns.CanonicalName(z.Name) != focus {
+				continue
+			}
+			has := false
+			for _, rec := range z.Records {
+				if strings.HasPrefix(rec, "*."+focus) && strings.Contains(rec, " IN A ") {
+					has = true
+				}
+			}
+			if !has {
+				z.Records = append(z.Records, fmt.Sprintf("*.%s 60 IN A 192.0.2.%d", focus, r.Range(1, 250)))
+			}
+		}
+		for i := range sc.Ops {
+			if r.Chance(0.5) {
+				sc.Ops[i].Name = kit.Pick(r, []string{"www.", "ns1.", ""}) + focus
+				sc.Ops[i].Qtype = dns.TypeA
+			}
+		}
+		sc.Tampers = append(sc.Tampers, C01Tamper{Zone: focus, Kind: kit.Pick(r, []string{"wildcard-replay", "wildcard-replay-other-nsec", "wildcard-replay-forged-nsec", "wildcard-replay-forged-nsec"}),
+			Step: "answer", FromOp: 0, ToOp: nops})
+	} else if r.Chance(0.8) {
 		nt := r.Range(1, 3)
 		for i := 0; i < nt; i++ {
 			from := r.Intn(nops)
@@ -105,7 +131,7 @@ func genC02(r *kit.RNG) *C01Scenario {
 				t.Zone = kit.Pick(r, zones)
 			}
 			switch t.Kind {
-			case "nx-for-existing", "nodata-for-existing", "forge-unsigned":
+			case "nx-for-existing", "nodata-for-existing", "forge-unsigned", "wildcard-replay", "wildcard-replay-other-nsec", "wildcard-replay-forged-nsec":
 				t.Step = "answer"
 			case "nods-for-secure":
 				t.Step = "referral"
@@ -167,7 +193,7 @@ func oracleC02(o *resOp, st *c02State) bool {
 		}
 	}
 	negative := m.Rcode == dns.RcodeNameError || (m.Rcode == dns.RcodeSuccess && !finalData)
-	if evil := containsEvil(m); evil != "" && truth.Secure && !op.CD {
+	if evil := containsEvil(m); evil != "" && truth.Secure && !truth.Spoofable && !op.CD {
 		res.Fail("C02/downgrade-accepted", "%s: forged unsigned data reached the client for a securely delegated name: %s", o.ctx, evil)
 		return false
 	}
@@ -189,6 +215,20 @@ func oracleC02(o *resOp, st *c02State) bool {
 	if !truth.Secure {
 		return true
 	}
+	if truth.Spoofable {
+		// not an owner of an opt-out zone: an attacker may place an insecure delegation
+		// there; only "no AD" and "no shared synthesis" apply
+		if m.AuthenticatedData && truth.Kind != "answer" {
+			res.Fail("C02/ad-on-optout-proof", "%s: AD set on a denial that rests on an opt-out span", o.ctx)
+			return false
+		}
+		if negative && o.upstream == 0 && !askedBefore && m.Rcode == dns.RcodeNameError {
+			res.Fail("C02/synthesis-from-optout", "%s: denied without upstream traffic although the covering NSEC3 span is opt-out", o.ctx)
+			return false
+		}
+		res.Probes["optout-span-name"]++
+		return true
+	}
 	if m.AuthenticatedData && truth.OptOut && truth.Kind != "answer" {
 		res.Fail("C02/ad-on-optout-proof", "%s: AD set on a denial that rests on an opt-out span", o.ctx)
 		return false
@@ -205,6 +245,14 @@ func oracleC02(o *resOp, st *c02State) bool {
 	if !negative && truth.Kind != "answer" && !(truth.OptOut && truth.Kind == "nxdomain") {
 		res.Fail("C02/data-for-absent", "%s: the zone has no such data (%s) but the client got an answer %v", o.ctx, o.tclass, authsim.RRKeys(m.Answer, dns.TypeRRSIG))
 		return false
+	}
+	if !negative && truth.Kind == "answer" {
+		got := authsim.RRKeys(m.Answer, dns.TypeRRSIG)
+		want := authsim.RRKeys(truth.Answer, dns.TypeRRSIG)
+		if strings.Join(got, "\n") != strings.Join(want, "\n") {
+			res.Fail("C02/wrong-data-accepted", "%s: the answer is not what the zone holds for this name (a wildcard or other RRset was substituted without a valid no-closer-match proof)\n got: %v\nwant: %v", o.ctx, got, want)
+			return false
+		}
 	}
 	// upstream-free denial of a question never asked before = synthesised from cached proofs
 	if negative && o.upstream == 0 && !askedBefore && truth.Zone != nil {
